@@ -13,7 +13,7 @@ from typing import Any, Dict, List, Optional, Tuple
 
 from rpv import families
 from rpv.checks.inproc_util import candidate_days, clean_cut
-from rpv.cli_core import cli_histories, cli_profile, decode_trace, method_choice, parse_report_ts
+from rpv.cli_core import add_verbatim_duplicate, cli_histories, cli_profile, decode_trace, method_choice, parse_report_ts
 from rpv.drive_cli import COUNTRY_LANGUAGES, COUNTRY_METHODS, Workspace
 from rpv.gen import METHODS, dstr, parse_ts
 from rpv.model import Model
@@ -250,6 +250,11 @@ def c03(ctx: Any, total: int) -> None:
         index = ctx.shard + i * ctx.nshards
         rng = ctx.rng("cli", index)
         hists = cli_histories(rng, rng.choice((1, 2)), cli_profile(p_earn=0.5, p_intra=0.3, p_in=0.4, p_out=0.3, max_events=16, p_self_transfer=0.1))
+        if index % 4 == 2:
+            # a row repeated verbatim right below itself (every cell, unique id and notes included) is a second transaction
+            for hist in hists.values():
+                if add_verbatim_duplicate(rng, hist, rng.choice((("IN",), ("IN", "OUT", "INTRA")))) is not None:
+                    ctx.count("cli_sheets_with_a_row_repeated_verbatim")
         _c03_one(ctx, _case(hists, "us", ["-m", rng.choice(METHODS)], None), f"c03-{index}")
 
 
@@ -640,6 +645,11 @@ def c08(ctx: Any, total: int) -> None:
             hists = dict(hists, **{sorted(hists)[0]: families.stale_with_fee_overdraft(rng, sorted(hists)[0])})
             args = ["-m", rng.choice(METHODS), "-n"]
             ctx.count("cli_runs_with_no_positive_balance_but_unsold_lots")
+        if index % 8 == 3:
+            # an acquisition's crypto fee (a fee-typed debit the parser derives from the IN row) overdraws its account
+            hists = dict(hists, **{sorted(hists)[0]: families.in_fee_overdraft(rng, sorted(hists)[0])})
+            args = ["-m", rng.choice(METHODS)] + (["-n"] if (index // 8) % 3 == 2 else [])
+            ctx.count("cli_runs_with_in_fee_overdraft")
         if "-n" not in args and rng.random() < 0.5:
             # a from-date never changes the verdict (balances cover all history up to the to-date)
             days = sorted({parse_ts(r["ts"]).date() for h in hists.values() for r in h["rows"]})
